@@ -134,6 +134,13 @@ def run_case(case, res):
         # refused calls / add+remove pairs first (a leaf may be left with an empty child list instead of None);
         # the set of nodes is unchanged by construction of the prelude below
         prng = rng_for(case.get("pseed", 0), "c16-prelude", case["f"])
+        gen.warm_queries(t, typed)  # anything the library memoises now holds pre-mutation answers
+        if prng.random() < 0.5:
+            ks = {}
+            try:
+                t.sort(key=lambda x: ks.setdefault(id(x), prng.random()))
+            except Exception:
+                pass
         for nd in nodes:
             r = prng.random()
             try:
